@@ -22,7 +22,7 @@ print(json.dumps({
   'tool': 'coqchk -o -silent -Q . SV <all Props modules>', 'rc': int(sys.argv[1]), 'modules': int(sys.argv[2]), 'seconds': int(sys.argv[3]),
   'verif_commit': subprocess.run(['git','-C','$V','rev-parse','--short','HEAD'],capture_output=True,text=True).stdout.strip(),
   'axioms': grab(r'\* Axioms:\s*(.*?)\n\s*\n'), 'type_in_type': grab(r'type-in-type:\s*(.*?)\n\s*\n'),
-  'unsafe_fixpoints': grab(r'unsafe \(co\)fixpoints:\s*(.*?)\n\s*\n'), 'positivity_assumed': grab(r'positivity is assumed:\s*(.*?)\n\s*\n'),
+  'unsafe_fixpoints': grab(r'unsafe \(co\)fixpoints:\s*(.*?)\n\s*\n'), 'positivity_assumed': grab(r'positivity is assumed:\s*(\S[^\n]*)'),
 }, indent=1))
 PY
 cat "$V/evidence/coqchk-all.json"
